@@ -119,6 +119,8 @@ def check(rec, case):
     text, trans, cls = case["text"], case["trans"], case["cls"]
     wrap = case.get("wrap", False)
     pre = " " if a > 0 and ctx_src[a - 1] == "@" else ""
+    if "\n=col" in text:
+        text = xonsh.expand_columns(text, a - (ctx_src.rfind("\n", 0, a) + 1) + len(pre) + (1 if wrap else 0))
     ins_s = f"({text})" if wrap else text
     ins_t = f"({trans})" if wrap else trans
     s_src = ctx_src[:a] + pre + ins_s + ctx_src[b:]
@@ -147,10 +149,11 @@ def check(rec, case):
         rec.fail(dict(case, src=s_src), f"tree:{case.get('kind')}:{diff_signature(d)}", {"path": d[0], "kind": d[1], "expected": d[2], "got": d[3], "src": s_src[:300]})
         return
     # span: a node of the expected class starts at the hole and covers exactly the construct's text
-    end_col = col + len(text)
+    end_line = line + text.count("\n")
+    end_col = col + len(text) if "\n" not in text else len(text) - text.rfind("\n") - 1
     found = [n for n in ast.walk(o.tree) if type(n).__name__ == cls and (getattr(n, "lineno", None), getattr(n, "col_offset", None)) == (line, col)]
-    if not any((n.end_lineno, n.end_col_offset) == (line, end_col) for n in found):
-        rec.fail(dict(case, src=s_src), f"span:{case.get('kind')}", {"expected": [line, col, line, end_col], "found": [(n.lineno, n.col_offset, n.end_lineno, n.end_col_offset) for n in found][:3], "src": s_src[:300]})
+    if not any((n.end_lineno, n.end_col_offset) == (end_line, end_col) for n in found):
+        rec.fail(dict(case, src=s_src), f"span:{case.get('kind')}", {"expected": [line, col, end_line, end_col], "found": [(n.lineno, n.col_offset, n.end_lineno, n.end_col_offset) for n in found][:3], "src": s_src[:300]})
 
 
 def check_store(rec, case):
@@ -195,7 +198,7 @@ def search(rec, ctx):
         offs = line_offsets(src)
         for _ in range(3):
             node, kind, pf, depth = hs[rnd.randrange(len(hs))]
-            sg = xonsh.sugar(rnd)
+            sg = xonsh.sugar(rnd, multiline=True)
             wrap = False
             if sg.level == "bool" and kind != "full":
                 wrap = True
@@ -219,6 +222,21 @@ def search(rec, ctx):
         check(rec, {"ctx": src, "a": a, "b": b, "text": sg.text, "trans": sg.trans, "cls": sg.cls, "kind": sg.kind, "wrap": sg.level == "bool" and kind != "full", "pf": list(pf[:2]), "in_target": pf[2], "depth": depth + 3, "stream": "fstring-context"})
 
     drive(st.randoms(use_true_random=False), fctx, ctx.budget(2000, 20000), ctx.hseed("fctx"))
+
+    # the construct as the very last thing of the input, with and without a final line end (and after other layouts
+    # of the end of input): statement, last operand, last argument, last line of a block
+    EOF_CTX = ["HOLE", "x = 1\nHOLE", "x = HOLE", "if a:\n    HOLE", "if a:\n    b\nHOLE", "y = 2 + HOLE", "def f():\n    return HOLE", "for i in j:\n    k = HOLE", "x = 1; HOLE", "try:\n    a\nfinally:\n    HOLE", "with a:\n    b\n    HOLE"]
+    EOF_TAILS = ["", "\n", " ", "  # c", "\n\n", " \n", "\n# c", "\n    ", ";", " ;\n"]
+
+    def at_eof(rnd):
+        c = rnd.choice(EOF_CTX)
+        tail = rnd.choice(EOF_TAILS)
+        sg = xonsh.sugar(rnd, multiline=True)
+        src = c + tail
+        a = src.index("HOLE")
+        check(rec, {"ctx": src, "a": a, "b": a + 4, "text": sg.text, "trans": sg.trans, "cls": sg.cls, "kind": sg.kind, "wrap": False, "pf": ["Eof", c.replace("\n", "/")[:14]], "in_target": False, "depth": 0, "stream": "at-end-of-input"})
+
+    drive(st.randoms(use_true_random=False), at_eof, ctx.budget(3000, 30000), ctx.hseed("eof"))
 
     def store(rnd):
         tmpl = xonsh.STORE_TEMPLATES[rnd.randrange(len(xonsh.STORE_TEMPLATES))]
